@@ -129,6 +129,15 @@ def reject_frame_monitor(ctx, tr, ix):
         if c["api"] in ("deposit", "withdraw", "finance", "repay", "cancel_order", "combo_buy_rest_sell", "combo_future_close", "combo_auction_two_fill", "combo_auction_cancel", "plan_future_open", "plan_future_split_close", "plan_future_generic_close", "plan_future_close_today_twice", "plan_cash_edge", "plan_future_cash_edge"):
             continue
         ctx.evaluations += 1
+        if c["api"] == "submit_order_no_bar":
+            # an instrument without a bar today has no valid price: whatever the order type, the order must be refused at creation, with no side effect
+            ctx.stats["submit_order_calls_without_market_data"] += 1
+            changed = any(acct_sync.diff_state(dict(c["before"][t]), dict(c["after"][t])) for t in c["before"])
+            if c["orders"] or changed or c["open_before"] != c["open_after"]:
+                ctx.witness("C16.1", {"kind": "order_without_market_data_accepted", "api": "submit_order"},
+                            "submit_order(%s, 100, BUY, price=%r) on %s, a day without a bar for the instrument: returned %s, account changed: %s, open orders %s -> %s"
+                            % (c["args"][0], c["args"][2], c["when"].date(), [(o["status"], o["qty"]) for o in c["orders"]], changed, len(c["open_before"]), len(c["open_after"])), rp)
+            continue
         accepted = [o for o in c["orders"] if o["status"] != "REJECTED" or o["filled"]]
         lo, hi = c.get("val_range", (0, 0))
         vetoed = [v for v in tr.rec.validations[lo:hi] if v["veto"]]
